@@ -1,8 +1,10 @@
 (* Properties_C07.v — C07: round trips and format conversions preserve the document. *)
 From Coq Require Import NArith ZArith List Bool.
 From Coq Require Import Floats.SpecFloat.
-From AJ Require Import Model.Base Model.FloatModel Model.Value Model.JsonParse Model.JsonSer Model.MsgPack.
+From AJ Require Import Model.Base Model.FloatModel Model.Value Model.NumParse Model.JsonParse Model.JsonSer Model.MsgPack.
 From AJ Require Import Proofs.JsonSerRT Proofs.MsgPackRT.
+From Coq Require Import Reals.
+From AJ Require Proofs.FloatRT.
 Local Open Scope Z_scope.
 
 (* deserializeJson(serializeJson(d)) = d : structure, order, strings and integers exact (float-free documents;
@@ -26,6 +28,31 @@ Print Assumptions C07_msgpack_roundtrip.
 Theorem C07_msgpack_fixpoint : forall v, mp_ok v -> mp_ser (mp_norm v) = mp_ser v.
 Proof. exact mp_fixpoint. Qed.
 Print Assumptions C07_msgpack_fixpoint.
+
+(* documents WITH floating-point values (default configuration): serializeJson then deserializeJson gives a document
+   of the same shape, keys, strings, integers and booleans, whose floating-point leaves are close to the original ones
+   in the sense of C12 (FloatRT.close): a double comes back as a double within 1.1e-9*max(1,|x|), as the integer it
+   equals within 1e-9, or — when its printed text has at most seven significant digits, which parseNumber stores as a
+   float — as a float within 6.11e-7*max(1,|x|); a float comes back within 1.61e-6*max(1,|x|).  Over the reals. *)
+Theorem C07_json_roundtrip_with_floats : forall cf, decode_unicode cf = true -> use_double cf = true ->
+  forall v, FloatRT.ser_ok_floats v -> forall L, (nesting v <= L)%nat ->
+  exists w, j_err (json_run cf None L (ser cf v)) = Ok /\
+            j_doc (json_run cf None L (ser cf v)) = w /\ FloatRT.close v w.
+Proof. exact FloatRT.json_roundtrip_close. Qed.
+Print Assumptions C07_json_roundtrip_with_floats.
+
+(* on float-free documents [close] is equality: this contains C07_json_roundtrip *)
+Theorem C07_close_is_equality_without_floats : forall v w, nofloat v -> FloatRT.close v w -> v = w.
+Proof. exact FloatRT.close_nofloat. Qed.
+Print Assumptions C07_close_is_equality_without_floats.
+
+(* the tolerance for a double that comes back as a float cannot be 1e-9: 0.1 prints as "0.1", which reads as a float *)
+Example C07_double_may_come_back_as_float :
+  let x := sf_of_bits F64 0x3FB999999999999A in
+  write_f64 default_cfg x = [48; 46; 49]%N /\
+  jv_of_number default_cfg (parse_number default_cfg (write_f64 default_cfg x))
+    = Some (JFloat (S754_finite false 13421773 (-27))).
+Proof. split; vm_compute; reflexivity. Qed.
 
 Example C07_cross_format_example :   (* JSON -> document -> MessagePack -> document *)
   let d := j_doc (json_run default_cfg None 10 [123; 34; 97; 34; 58; 91; 49; 44; 34; 120; 34; 44; 45; 50; 93; 125]%N) in
